@@ -291,3 +291,25 @@ func TestC06Resume(t *testing.T) {
 		runC06(s, rt, t, c)
 	})
 }
+
+// TestC06Known re-runs the committed reproductions of listed C06 findings.
+func TestC06Known(t *testing.T) {
+	if kit.ReplayMode() {
+		t.Skip()
+	}
+	s := kit.Begin(t, "C06", "known", "committed reproductions of listed findings (known/C06/*.json)")
+	defer s.End()
+	for _, p := range kit.KnownReplays("C06") {
+		var c c06Case
+		r, err := kit.LoadReplayFile(p, &c)
+		if err != nil {
+			t.Fatal(err)
+		}
+		rec := &kit.KnownRecorder{}
+		probe := kit.BeginProbe(t, "C06", "known-probe")
+		runC06(probe, rec, t, c)
+		if rec.Failed {
+			s.KnownStillFails(t, c, r.Sig, firstLine(rec.Msg))
+		}
+	}
+}
